@@ -150,6 +150,7 @@ def run(prog, cfg, target=None, action='abort', second=None, inline=False,
 
   threading.excepthook = hook
   info = {'reached': False, 'blocked': False, 'second_reached': False}
+  CURRENT['info'] = info
   eng.arm(target, yield_seed=yield_seed,
           yield_prob=yield_prob if yield_seed is not None else 0.0)
   if inline and target is not None:
@@ -179,15 +180,29 @@ def run(prog, cfg, target=None, action='abort', second=None, inline=False,
     old_sig = signal.signal(signal.SIGINT, wrapped)
 
     def sigint_action(tag='abort'):
+      info['sigint_sent'] = info.get('sigint_sent', 0) + 1
       n = sum(1 for e in log.events if e[2].endswith('_ret') and
               e[2].startswith('abort'))
       # deliver to the main thread, as the kernel does for a terminal Ctrl-C
+      ncalls = sum(1 for e in log.events if e[2].endswith('_call') and
+                   e[2].startswith('abort'))
       signal.pthread_kill(threading.main_thread().ident, signal.SIGINT)
-      t_end = time.monotonic() + 3.0
-      while time.monotonic() < t_end:
+      t_start = time.monotonic()
+      resent = 0
+      while time.monotonic() - t_start < 4.0:
         if sum(1 for e in log.events if e[2].endswith('_ret') and
                e[2].startswith('abort')) > n:
           return True
+        started = sum(1 for e in log.events if e[2].endswith('_call') and
+                      e[2].startswith('abort')) > ncalls
+        if (not started and resent < 3 and
+            time.monotonic() - t_start > 0.8 * (resent + 1)):
+          # CPython can miss a signal that lands just before the main thread
+          # blocks in a lock wait (the C handler ran, the wait is not
+          # interrupted): the operator would press Ctrl-C again.
+          resent += 1
+          info['sigint_resent'] = resent
+          signal.pthread_kill(threading.main_thread().ident, signal.SIGINT)
         time.sleep(0.0005)
       return False
 
